@@ -49,7 +49,29 @@ def _key(cls, k):
     return v
 
 
-VALUES = [0, 1, -1, 255, 2**40, None, True, "s", [1, 2], {"a": 1}, 3.5]
+VALUES = [0, 1, -1, 255, 2**40, None, True, "s", [1, 2], {"a": 1}, 3.5, "", 0.0, False, [],
+          {"__py__": "Ellipsis"}, {"__py__": "NotImplemented"}, {"__py__": "tuple"}, {"__py__": "bytes"}, {"__py__": "frozenset"},
+          {"__py__": "fixeddict"}, {"__py__": "int-enum"}, {"__py__": "neg-zero"}, {"__py__": "big"}]
+
+# values that JSON cannot hold are named by a token in the case and built here
+_PY_VALUES = {
+    "Ellipsis": lambda: Ellipsis,
+    "NotImplemented": lambda: NotImplemented,
+    "tuple": lambda: (1, (2, 3)),
+    "bytes": lambda: b"\x00\xff",
+    "frozenset": lambda: frozenset([1, 2]),
+    "fixeddict": lambda: vc2_fixeddicts.ParseInfo(parse_code=0x10, next_parse_offset=0),
+    "int-enum": lambda: __import__("vc2_data_tables").ParseCodes.end_of_sequence,
+    "neg-zero": lambda: -0.0,
+    "big": lambda: -(1 << 200),
+}
+
+
+def pyval(v):
+    if isinstance(v, dict) and set(v) == {"__py__"}:
+        return _PY_VALUES[v["__py__"]]()
+    return v
+
 
 # fixeddict types that share at least one declared key with another type (the
 # source of an update / |= may itself be a fixed-entry dictionary of another
@@ -162,7 +184,9 @@ class C27(Spec):
             stats["op:" + op] += 1
             if d is None and op != "new":
                 continue
-            pairs = [(_key(cls, k), v) for k, v in o.get("items", [])]
+            pairs = [(_key(cls, k), pyval(v)) for k, v in o.get("items", [])]
+            if "v" in o:
+                o = dict(o, v=pyval(o["v"]))
             has_undeclared = any(k not in declared for k, _ in pairs)
             exc = None
             result = None
@@ -533,6 +557,17 @@ class C20(Spec):
                     L = total + rng.choice([0, 0, 1, 2]) if rng.random() < 0.7 else rng.choice([-3, -1, 0])
                     if L <= 0:
                         inner = tail
+                    elif rng.random() < 0.45:
+                        # one value whose code straddles the block end: only its
+                        # trailing 1 bits (terminator / negative sign) hang over
+                        mag = rng.choice([0, 1, 2, 3, 7, 8, 15, 127, 255, 256, 1023, 65535, rng.randrange(1 << 20), rng.randrange(1 << 70)])
+                        so = {"op": "uint", "v": mag} if rng.random() < 0.4 else {"op": "sint", "v": -mag}
+                        sb = m_bits(so)
+                        t = 0
+                        while t < len(sb) and sb[len(sb) - 1 - t] == 1:
+                            t += 1
+                        inner = inner[: len(inner) - len(tail)] + [so]
+                        L = total + len(sb) - rng.randrange(1, t + 1)
                 else:
                     L = rng.choice([-3, -1, 0, 0, 1, 2, 3, 5, 8, 13, 24, 40])
                 ops.append({"op": "bb", "len": L, "ops": inner, "fill": rng.choice(["0", "1", "r"]), "fseed": rng.randrange(1 << 16)})
@@ -549,7 +584,12 @@ class C20(Spec):
                 ops.append({"op": "flush"})
             else:
                 ops.append({"op": "align"})
-        return {"ops": ops, "trunc": rng.choice([None, None, rng.randrange(0, 40)]), "seeks": [rng.randrange(1 << 16) for _ in range(rng.choice([0, 0, 2, 4]))], "reread": rng.random() < 0.4}
+        case = {"ops": ops, "trunc": rng.choice([None, None, rng.randrange(0, 40)]), "seeks": [rng.randrange(1 << 16) for _ in range(rng.choice([0, 0, 2, 4]))], "reread": rng.random() < 0.4}
+        if rng.random() < 0.15:
+            # the stream does not start at offset 0 of its file (a container
+            # prefix): writer and readers are handed a file positioned past it
+            case["prefix"] = rng.choice([1, 2, 3, 5])
+        return case
 
     def shrink(self, case):
         for ops in shrink_list(case["ops"]):
@@ -564,16 +604,21 @@ class C20(Spec):
             yield dict(case, seeks=[])
         if case.get("reread"):
             yield dict(case, reread=False)
+        if case.get("prefix"):
+            yield {k: v for k, v in case.items() if k != "prefix"}
 
     def execute(self, case):  # noqa: C901
         import random as _random
 
         stats = Counter()
         events = [("case", repr(case))]
-        f = SimFile()
+        npre = case.get("prefix", 0)
+        junk = bytes((37 * i + 11) & 0xFF for i in range(npre))
+        f = SimFile(junk)
+        f.seek(npre)
         w = BitstreamWriter(f)
-        bits = []  # model: the stream
-        pos = 0  # model cursor (bit index)
+        bits = [(x >> i) & 1 for x in junk for i in range(7, -1, -1)]  # model: the file's bits
+        pos = 8 * npre  # model cursor (bit index)
         layout = []  # what was written: (kind, op, start, nbits, expected value, inner info)
         shape = []
         step = -1
@@ -581,7 +626,7 @@ class C20(Spec):
         def viol(sig, detail):
             return Outcome(VIOLATION, events, sig=sig, detail="ops %r\nat op %d: %s" % (case["ops"][: step + 1], step, detail), stats=stats, nontrivial=len(case["ops"]) >= 2, key="".join(shape)[:24], ticks=step + 1)
 
-        fixed = []  # per bit: written by a fixed-width value op outside a block
+        fixed = [False] * (8 * npre)  # per bit: written by a fixed-width value op outside a block
 
         def put(bs, at, is_fixed=False):
             need = at + len(bs) - len(bits)
@@ -751,12 +796,15 @@ class C20(Spec):
         for label, cut in (("full", None), ("trunc", case["trunc"])):
             if label == "trunc" and cut is None:
                 continue
-            rdata = data if cut is None else data[: min(cut, len(data))]
+            rdata = data if cut is None else data[: min(max(cut, npre), len(data))]
             avail = 8 * len(rdata)
-            r = BitstreamReader(SimFile(rdata))
+            rf, df = SimFile(rdata), SimFile(rdata)
+            rf.seek(npre)
+            df.seek(npre)
+            r = BitstreamReader(rf)
             st = State()
-            _dec.init_io(st, SimFile(rdata))
-            p = 0
+            _dec.init_io(st, df)
+            p = 8 * npre
             stats["read-pass:" + label] += 1
             for (kind, o, start, nb, extra, *rest) in layout:
                 if kind == "v":
